@@ -777,6 +777,28 @@ func init() {
 		return Tuple{intC(0), Iface{}}
 	})
 
+	// Fprint*: format, then hand the bytes to the writer's own Write method
+	fprint := func(fr *frame, wv Value, s Str) Value {
+		e := wv.(Iface)
+		if e.T == nil {
+			fr.rtPanic("invalid memory address or nil pointer dereference (Fprint to a nil io.Writer)")
+		}
+		m := fr.w.findMethod(e.T, "Write")
+		if m == nil {
+			panic(engineError("fmt.Fprint: writer without Write method: " + e.T.String()))
+		}
+		var buf []Value
+		for _, t := range s.Terms() {
+			buf = append(buf, t)
+		}
+		return fr.w.call(fr, fr.callpos, m, []Value{e.V, buf})
+	}
+	reg("fmt.Fprint", func(fr *frame, a []Value) Value { return fprint(fr, a[0], fr.w.sprint(fr, a[1].([]Value), false)) })
+	reg("fmt.Fprintln", func(fr *frame, a []Value) Value { return fprint(fr, a[0], fr.w.sprint(fr, a[1].([]Value), true)) })
+	reg("fmt.Fprintf", func(fr *frame, a []Value) Value {
+		return fprint(fr, a[0], fr.w.sprintf(fr, concStr(fr, a[1], "format"), a[2].([]Value)))
+	})
+
 	// ------------------------------------------------------------ errors
 	reg("errors.Is", func(fr *frame, a []Value) Value {
 		e, target := a[0].(Iface), a[1].(Iface)
